@@ -77,7 +77,7 @@ func (c *Ctx) checkGuardedBy(fns []*ssa.Function, table []guardedField, keyPrefi
 						if ls == nil {
 							ls = an.Locksets(fn)
 						}
-						held := an.HeldFor(ls[use], base, g.lock)
+						held := an.HeldFor(ls[use], base, g.lock) || an.HeldViaWrapper(fn, fa.X, g.lock)
 						kind := "read"
 						if _, isStore := use.(*ssa.Store); isStore {
 							kind = "write"
